@@ -46,15 +46,15 @@ func e1Runs(quick bool) []e1Run {
 			}
 		} else {
 			runs = append(runs,
-				e1Run{"all interleavings, fault-free", cluster.Config{N: 4, Rules: rs, Horizon: 2, Timeouts: 1}, -1, 15 * time.Minute},
-				e1Run{"<=2 deviations, fault-free", cluster.Config{N: 4, Rules: rs, Horizon: 6, Timeouts: 12, Dups: 1, Drops: true}, 2, 15 * time.Minute},
-				e1Run{"<=1 deviation, fault-free, n=7", cluster.Config{N: 7, Rules: rs, Horizon: 5, Timeouts: 12, Drops: true}, 1, 10 * time.Minute},
+				e1Run{"all interleavings, fault-free", cluster.Config{N: 4, Rules: rs, Horizon: 2, Timeouts: 1}, -1, 3 * time.Minute},
+				e1Run{"<=2 deviations, fault-free", cluster.Config{N: 4, Rules: rs, Horizon: 6, Timeouts: 12, Dups: 1, Drops: true}, 2, 3 * time.Minute},
+				e1Run{"<=1 deviation, fault-free, n=7", cluster.Config{N: 7, Rules: rs, Horizon: 5, Timeouts: 12, Drops: true}, 1, 2 * time.Minute},
 			)
 			if !fast {
 				runs = append(runs,
-					e1Run{"<=2 deviations, twin", cluster.Config{N: 4, Rules: rs, Horizon: 6, Timeouts: 12, Drops: true, Twin: 3}, 2, 15 * time.Minute},
-					e1Run{"<=2 deviations, scripted Byzantine replica", cluster.Config{N: 4, Rules: rs, Horizon: 6, Timeouts: 12, Byz: 3, Drops: true, Crafter: 4}, 2, 20 * time.Minute},
-					e1Run{"<=2 deviations, one silent replica", cluster.Config{N: 4, Rules: rs, Horizon: 7, Timeouts: 16, Drops: true, Crashed: map[hotstuff.ID]bool{4: true}}, 2, 15 * time.Minute},
+					e1Run{"<=2 deviations, twin", cluster.Config{N: 4, Rules: rs, Horizon: 6, Timeouts: 12, Drops: true, Twin: 3}, 2, 3 * time.Minute},
+					e1Run{"<=2 deviations, scripted Byzantine replica", cluster.Config{N: 4, Rules: rs, Horizon: 6, Timeouts: 12, Byz: 3, Drops: true, Crafter: 4}, 2, 4 * time.Minute},
+					e1Run{"<=2 deviations, one silent replica", cluster.Config{N: 4, Rules: rs, Horizon: 7, Timeouts: 16, Drops: true, Crashed: map[hotstuff.ID]bool{4: true}}, 2, 3 * time.Minute},
 				)
 			}
 		}
@@ -133,7 +133,7 @@ func e1Scenarios(r *ev.Reporter, prop string) {
 	budget := 40 * time.Second
 	if !r.Quick() {
 		views = 3
-		budget = 40 * time.Minute
+		budget = 8 * time.Minute
 	}
 	type job struct {
 		rs string
